@@ -1,0 +1,18 @@
+// Copyright Suneido Software Corp. All rights reserved.
+// Governed by the MIT license found in the LICENSE file.
+
+//go:build !verif
+
+// Package verif provides trace events and scheduling gates
+// for external verification harnesses.
+// Without the "verif" build tag it compiles to nothing.
+package verif
+
+// On is true when built with the verif tag
+const On = false
+
+// Event does nothing without the verif tag
+func Event(string, ...any) {}
+
+// Gate does nothing without the verif tag
+func Gate(string, ...any) {}
